@@ -30,7 +30,9 @@ P == [nt \in NT |->
          <<"signal", "input", "ID", "<Dims>", ";">>, <<"signal", "output", "ID", "<Dims>", ";">>, <<"signal", "ID", "<Dims>", ";">>,
          <<"signal", "output", "ID", "<AOp>", "<E>", ";">>,
          <<"component", "ID", "<Dims>", ";">>, <<"component", "ID", "=", "<E>", ";">>,
-         <<"<L>", "<AOp>", "<E>", ";">>, <<"<E>", "<ROp>", "<L>", ";">>, <<"<L>", "INCDEC", ";">>, <<"<L>", "OPASSIGN", "<E>", ";">>,
+         <<"<L>", "<AOp>", "<E>", ";">>, <<"<E>", "<ROp>", "<L>", ";">>,
+         <<"<E>", "<AOp>", "<E>", ";">>,          \* a left-hand side that is not a variable (accepted by the grammar as a multi-substitution)
+         <<"<E>", ";">>,                           \* expression statement (anonymous component call) <<"<L>", "INCDEC", ";">>, <<"<L>", "OPASSIGN", "<E>", ";">>,
          <<"<E>", "===", "<E>", ";">>,
          <<"<Tuple>", "<AOp>", "<E>", ";">>, <<"<E>", "<ROp>", "<Tuple>", ";">>,
          <<"if", "(", "<E>", ")", "<Stmt>">>, <<"if", "(", "<E>", ")", "<Stmt>", "else", "<Stmt>">>,
@@ -42,8 +44,8 @@ P == [nt \in NT |->
     [] nt = "<AOp>" -> {<<"=">>, <<"<==">>, <<"<--">>}
     [] nt = "<ROp>" -> {<<"==>">>, <<"-->">>}
     [] nt = "<E>" -> {<<"NUM">>, <<"<L>">>, <<"(", "<E>", ")">>, <<"<E>", "BOP", "<E>">>, <<"UOP", "<E>">>,
-                      <<"<E>", "?", "<E>", ":", "<E>">>, <<"ID", "(", "<Args>", ")">>,
-                      <<"ID", "(", "<Args>", ")", "(", "<Args>", ")">>, <<"parallel", "ID", "(", "<Args>", ")">>,
+                      <<"<E>", "?", "<E>", ":", "<E>">>, <<"CALLEE", "(", "<Args>", ")">>,
+                      <<"CALLEE", "(", "<Args>", ")", "(", "<Args>", ")">>, <<"parallel", "CALLEE", "(", "<Args>", ")">>,
                       <<"[", "<E>", "]">>, <<"[", "<E>", ",", "<E>", "]">>, <<"<Tuple>">>}
     [] nt = "<Args>" -> {<<>>, <<"<E>">>, <<"<E>", ",", "<E>">>, <<"ID", "<AOp>", "<E>">>}
     [] nt = "<Tuple>" -> {<<"(", "<E>", ",", "<E>", ")">>, <<"(", "_", ",", "<L>", ")">>, <<"(", "<L>", ",", "_", ",", "<L>", ")">>}
